@@ -1,11 +1,12 @@
 (* Correspondence and violation oracles for C14. *)
-From Coq Require Import List Bool NArith ZArith Arith.
+From Coq Require Import List Bool NArith ZArith Arith QArith.
 From Coq.Strings Require Import Byte.
 Import ListNotations.
 From GA.Base Require Import Bytes Case Align CorrBase.
 From GA.Gen Require Import Alpha Iupac.
 From GA.Spec Require Import IupacSets.
-From GA.Model Require Import Stats.
+From GA.Model Require Import Stats Pssm.
+Local Close Scope Q_scope.
 
 Definition brows := list (bs * bs).
 Definition unrows (l : brows) : rows := map (fun r => (unbs (fst r), unbs (snd r))) l.
@@ -20,6 +21,7 @@ Inductive op :=
 | OpGapsProfile | OpMutProfile      (* with a count profile built from c_rows; l1 uniques, l2 new, c_kv (x00, both) *)
 | OpMutVsRef (refidx seqidx : Z)
 | OpMutList (refidx seqidx : Z)      (* c_diffs: one list per mutation, (Ref, Alt byte, Pos) for each Alt byte *)
+| OpPssm (lg : bool) (pc : Q) (norm : Z)   (* c_num = number of NaN entries, c_l1 = [20 repeated calls agree] *)
 | OpCompat (a b : Z).
 
 Record case := mk {
@@ -44,6 +46,10 @@ Definition same_set (a b : list (byte * byte * Z)) : bool :=
 Definition float_is_ratio (num den : Z) (a b : Z) : bool :=
   let '(fn, fd) := if (0 <=? den)%Z then ((num * 2 ^ den)%Z, 1%Z) else (num, (2 ^ (- den))%Z) in
   (Z.abs (fn * b - a * fd) * 2 ^ 53 <=? Z.abs a * fd)%Z.
+
+Definition pssm_error (rs : rows) (al norm : Z) : bool :=
+  negb ((0 <=? norm)%Z && (norm <=? 4)%Z) ||
+  (Z.eqb norm PSSM_NORM_DATA && existsb (fun ch => Z.eqb (data_count rs ch) 0) (pssm_alphabet al)).
 
 Definition mut_enc (m : mutation) : list (byte * byte * Z) :=
   let '(rf, pos, alt) := m in map (fun a => (rf, a, pos)) alt.
@@ -105,6 +111,9 @@ Definition model_ok (c : case) : bool :=
           end
       | _, _ => true
       end
+  | OpPssm lg pc norm =>
+      (* the values are certified separately (Corr/C14Cert.v); here: the error condition *)
+      Bool.eqb (c_err c) (pssm_error rs al norm)
   | OpCompat a b =>
       match equal_or_compatible a b with
       | None => c_err c
@@ -294,6 +303,13 @@ Definition spec_check (c : case) : option bool :=
           else None
       | _, _ => None
       end
+  | OpPssm lg pc norm =>
+      (* an unknown normalisation, or normalising by the frequency of a character that the data do not
+         hold, is an error; otherwise every entry is a number (possibly -infinity for the logarithm of 0) and
+         calling again returns the same bits *)
+      if pssm_error rs al norm then Some (c_err c)
+      else if Nat.eqb (length rs) 0 then None
+      else Some (negb (c_err c) && Zlist_eqb (c_l1 c) [1%Z] && Z.eqb (c_num c) 0)
   | OpCompat a b =>
       if (0 <=? a)%Z && (a <=? 15)%Z && (0 <=? b)%Z && (b <=? 15)%Z
       then Some (negb (c_err c) && Bool.eqb (c_flag c) (Z.eqb a b || negb (Z.eqb (Z.land a b) 0)))
